@@ -46,6 +46,14 @@ def run(ctx):
                             'Histories: 2-5 conversions (to_vector dense/sparse x dtype None/bool/int64/uint16/float64, to_bitvector, to_bitstring, to_rdkit, fold, pickle, deepcopy, '
                             'from_fingerprint, adding to a database of each kind, get_count/mean/std) on ONE object, half of them starting with a boolean view; after every step '
                             'result == result on a fresh copy == model, object unchanged, and its vector round trip still exact. '
+                            'Coverage extension (props/c10_cov.py): fingerprints over the whole value domain (full-mantissa / extreme float counts, counts up to 2^100, '
+                            'levels -2 .. 2^40 and numpy integers, unicode / white-space / punctuated names, rich picklable props incl. ndarrays, Mol, index_id_map) built along 13 '
+                            'construction routes per class family and pushed through every representation; call conventions (positional, bits=None, name=None / \'\', props=); dtype '
+                            'spellings and unmodelled dtypes; to_bitvector; strided / read-only / cast / csr_array / re-built input vectors; RDKit-made vectors; pickle object graphs '
+                            '(folded fingerprint with its parent, shared objects, containers, pure-Python pickler, pickletools.optimize); files with 10 extensions (.gz .bz2 .xz plain none '
+                            'unknown), pathlib / relative / odd file names, protocols 0-5 checked in the written bytes, stdlib codecs as foreign reader and writer, overwrite, non-fingerprint '
+                            'pickles, streams of 150-400 fingerprints, empty files; setter calls between conversions; aliasing of results and inputs (inputs unchanged); objects outside the class '
+                            'invariant (error branches of the model); numpy integers as bits; default values of every optional argument. '
                             'A case is non-trivial when the fingerprint (or input) has at least one set position; distinct by full input.')
     ctx.coverage['input_distribution'] = st.dist
     ctx.assumptions += [
@@ -53,6 +61,9 @@ def run(ctx):
         'dense vectors and bit strings are exercised up to 2^16 positions (the theorems are for every length)',
         'float fingerprints are not converted to uint16 vectors (C cast semantics of NumPy, not modelled); NaN/inf vector entries not generated',
         'RDKit vectors given to from_rdkit have on-bits below 2^31 (SetBitsFromList cannot set larger ones)',
+        'file-like objects are not given to save / load (smart_open 8 refuses them on the unchanged tree: findings/repro_cov_c10.py); paths are str or pathlib.Path',
+        'a numpy integer as `bits` is exercised as an observation only (to_rdkit raises on it: key rt:rdkit:numpy-integer-bits, findings/repro_cov_c10.py)',
+        'vector dtypes outside the model (int8..int64, uint8..uint64, float32) are checked directly on the implementation (entries == counts, OverflowError iff a count does not fit); float counts are cast to float dtypes only',
         'property values are compared through a canonical rendering (type name + repr, containers recursively)',
         'a fingerprint is an immutable value in the model: independence of a conversion from the conversions made before on the same object is tied by the history section (implementation vs fresh copy vs model), not by a theorem']
     ctx.coverage['trusted_base'] = list(ctx.coverage.get('trusted_base', [])) + [
@@ -67,6 +78,16 @@ def build_state(ctx):
     st = State(ctx)
     for sec in (sec_indices, sec_dense, sec_csr, sec_bitstring, sec_rdkit, sec_pickle, sec_files, sec_dtype_limit, sec_history):
         sec(st)
+    # coverage extension (props/c10_cov.py): appended, so that the sections above keep their case keys and random stream
+    from props import c10_cov
+    for sec in c10_cov.SECTIONS:
+        try:
+            sec(st)
+        except Exception:  # noqa - never on the unchanged tree; under a changed tree: an object these direct checks cannot even handle
+            import traceback
+            tb = traceback.format_exc()
+            st.prop_fail(sec.__name__, 'a conversion returned an object the checks of this section cannot handle (%s)' % tb.strip().split('\n')[-1][:200],
+                         {'section': sec.__name__, 'traceback_tail': tb[-1500:]})
     return st
 
 
